@@ -3,6 +3,7 @@ import Dmn.Model.Drg
 import Dmn.Model.DrgSpec
 import Dmn.Driver.Codec
 import Dmn.Driver.C01
+import Dmn.Driver.C11
 import Dmn.Model.NumD128
 
 /-!
@@ -17,13 +18,15 @@ the model of `evaluate_invocable` (`Dmn.Drg.evaluateInvocable`), the specificati
 `(c04 acyclic <graph>)` → `acyclic` / `cyclic`.
 `(c04 build <graph>)` → `builds` / `cyclic-requirements`: `check_requirements` of `ModelEvaluator::new`.
 
-    graph    ::= (graph (<input>…) (<decision>…) (<bkm>…) (<service>…))
+    graph    ::= (graph (<input>…) (<decision>…) (<bkm>…) (<service>…) [((<name> <item>)…)])   item: as for c11
     input    ::= (<id> <name> <ty>)
     decision ::= (<id> <name> <var> <ty> (<input id>…) (<decision id>…) (<knowledge id>…) <logic>)
     bkm      ::= (<id> <name> <var> <ty> ((<param> <type>)…) (<knowledge id>…) <logic>)
     service  ::= (<id> <name> <var> <ty> (<input data id>…) (<input decision id>…) (<encapsulated id>…) (<output id>…))
-    ty       ::= untyped | other | number | string | boolean | date | time | dateTime | dtDur | ymDur
+    ty       ::= untyped | other | (named <item definition name>) | number | string | boolean | date | time | dateTime | dtDur | ymDur
     logic    ::= (lit <ast>) | (ctx <entry>…) | (inv <logic> (<name> <logic>)…) | (rel (row (<column> <logic>)…)…)
+               | (dt <hit policy> ((in <ast> <ast>|absent)…) ((out <name>|absent <ast>|absent <ast>|absent)…)
+                     ((rule (<ast>…) (<ast>…))…))
     entry    ::= (entry <name> <logic>) | (result <logic>)
 -/
 
@@ -41,6 +44,7 @@ def tyOfSexp : Sexp → Option VarTy
   | .atom "dateTime" => some (.simple .dateTime)
   | .atom "dtDur" => some (.simple .dtDur)
   | .atom "ymDur" => some (.simple .ymDur)
+  | .list [.atom "named", n] => (Sexp.chars? n).map .named
   | _ => none
 
 def strs (xs : List Sexp) : Option (List String) := xs.mapM Sexp.str?
@@ -65,6 +69,26 @@ partial def logicOfSexp : Sexp → Option Ast
         pure (Ast.namedParameter (.parameterName n) l)
       | _ => none)
     pure (Boxed.invocation f bs)
+  | .list [.atom "dt", hp, .list ins, .list outs, .list rules] => do
+    let hp ← Sexp.str? hp
+    let opt (x : Sexp) : Option Ast := match x with
+      | .atom "absent" => some Boxed.absent
+      | a => astOfSexp a
+    let ins ← ins.mapM (fun c => match c with
+      | .list [.atom "in", e, v] => do pure (Ast.range (← astOfSexp e) (← opt v))
+      | _ => none)
+    let outs ← outs.mapM (fun c => match c with
+      | .list [.atom "out", n, v, d] => do
+        let n ← match n with
+          | .atom "absent" => some Boxed.absent
+          | x => (Sexp.str? x).map Ast.parameterName
+        pure (Ast.between n (← opt v) (← opt d))
+      | _ => none)
+    let rules ← rules.mapM (fun r => match r with
+      | .list [.atom "rule", .list ies, .list oes] => do
+        pure (Ast.contextEntry (.expressionList (← ies.mapM astOfSexp)) (.expressionList (← oes.mapM astOfSexp)))
+      | _ => none)
+    pure (Boxed.table hp ins outs rules)
   | .list (.atom "rel" :: rows) => do
     let rs ← rows.mapM (fun r => match r with
       | .list (.atom "row" :: cells) => do
@@ -137,6 +161,13 @@ def graphOfSexp : Sexp → Option Drg
     let ks ← ks.mapM bkmOfSexp
     let ss ← ss.mapM serviceOfSexp
     pure { inputs := is, decisions := ds, bkms := ks, services := ss }
+  | .list [.atom "graph", .list is, .list ds, .list ks, .list ss, .list items] => do
+    let is ← is.mapM inputOfSexp
+    let ds ← ds.mapM decisionOfSexp
+    let ks ← ks.mapM bkmOfSexp
+    let ss ← ss.mapM serviceOfSexp
+    let items ← Dmn.Driver.C11.defsOf items
+    pure { inputs := is, decisions := ds, bkms := ks, services := ss, items := items }
   | _ => none
 
 /-- correctly rounded decimal128 arithmetic, no built-in functions, the code's iteration engine and filter index -/
@@ -161,8 +192,13 @@ def handle (args : List Sexp) : String :=
   | [.atom "eval", ff, gf, g, name, input] =>
     match Sexp.nat? ff, Sexp.nat? gf, graphOfSexp g, Sexp.str? name, ctxOfSexp input with
     | some ff, some gf, some g, some name, some input =>
-      let m := render (Drg.evaluateInvocable base g ff gf name input)
-      let d := render (Drg.Spec.evaluateInvocable base g ff gf name input)
+      -- a value the model cannot compute (`unsupported`) could be absorbed by a dependent
+      -- decision: when any decision of the graph yields one on this input, the case is skipped
+      let tainted := g.decisions.any (fun d => match Drg.evalDecision base g ff gf d.id input with
+        | .ok v => Dmn.Driver.C01.hasUnsupported v
+        | _ => false)
+      let m := if tainted then "(unsupported)" else render (Drg.evaluateInvocable base g ff gf name input)
+      let d := if tainted then "(unsupported)" else render (Drg.Spec.evaluateInvocable base g ff gf name input)
       s!"({m} {d} {if g.acyclic then "acyclic" else "cyclic"} {if g.checkRequirements then "builds" else "cyclic-requirements"})"
     | _, _, none, _, _ => "(error bad-graph)"
     | _, _, _, _, _ => "(error bad-args)"
